@@ -266,7 +266,12 @@ pub fn gen_prog(r: &mut Rng, depth: u32) -> (String, Vars) {
             if c.starts_with('(') { c } else { "true".to_string() } };
         src.push_str(&format!("\n(when {}", cond));
         let ns = r.range(1, 5);
-        for _ in 0..ns { src.push_str("\n  "); src.push_str(&gen_stmt(r, &mut v, depth)); }
+        let mut last = String::new();
+        for _ in 0..ns {
+            // now and then the same statement twice in a row (an optimiser must not merge them)
+            let st = if !last.is_empty() && r.chance(1, 8) { last.clone() } else if r.chance(1, 12) { (*r.pick(&["(report)", "(fallthrough)"])).to_string() } else { gen_stmt(r, &mut v, depth) };
+            src.push_str("\n  "); src.push_str(&st); last = st;
+        }
         src.push(')');
     }
     (src, v)
@@ -507,8 +512,17 @@ pub fn layout_variant(r: &mut Rng, toks: &[String]) -> String {
         let at_event_start = depth == 0 && t == "(" && toks.get(i + 1).map(|x| x == "when").unwrap_or(false);
         let at_stmt = in_when && after_cond && depth == 1 && (t == "(" );
         if (at_event_start && r.chance(1, 3)) || (at_stmt && r.chance(1, 4)) {
-            s.push_str(&format!("# comment {} (with parens) := x\n", r.below(100)));
-            s.push_str(&ws_run(r, 0));
+            // ordinary text, an empty comment, a blank one, one that looks like code; among statements several in a row
+            let ncom = if at_stmt && r.chance(1, 4) { 2 + r.below(2) } else { 1 };
+            for _ in 0..ncom {
+                match r.below(6) {
+                    0 => s.push_str("#\n"),
+                    1 => s.push_str("#  \t \n"),
+                    2 => s.push_str("# (when true (report))\n"),
+                    _ => s.push_str(&format!("# comment {} (with parens) := x\n", r.below(100))),
+                }
+                s.push_str(&ws_run(r, 0));
+            }
         }
         // the operator token directly follows "(" inside statements
         let is_op_pos = prev == "(" && depth >= 1 && t != "(" && t != ")";
